@@ -312,7 +312,7 @@ impl<'a> Eval<'a> {
                     };
                     f.rec.pushed.push(tag | (f.acc & 0xF));
                 }
-                Op::CallMask { .. } | Op::CallShift { .. } | Op::CallInc { .. } | Op::CallNot { .. } => {
+                Op::CallMask { .. } | Op::CallShift { .. } | Op::CallInc { .. } | Op::CallNot { .. } | Op::CallSat { .. } => {
                     panic!("lattice op in acyclic reference")
                 }
             }
